@@ -85,13 +85,15 @@ def _do_cmd(command, timeout, **kwargs):
                     (mask_pwd(command), proc.returncode, output)
                 )
             return output
-        except subprocess.TimeoutExpired as err:
+        except subprocess.TimeoutExpired:
             os.killpg(os.getpgid(proc.pid), signal.SIGKILL)
             proc.communicate()
             LOG.debug("[%s] {timed out}", kwargs.get('cwd', os.getcwd()))
+            # `from None`: the TimeoutExpired carries the unmasked command line
             raise CommandError(
-                "Command %s timed out." % mask_pwd(command)) from err
+                "Command %s timed out." % mask_pwd(command)) from None
         except CommandError:
             raise
         except Exception as err:
-            raise CommandError(mask_pwd(str(err))) from err
+            # `from None`: only the masked text of the original error is kept
+            raise CommandError(mask_pwd(str(err))) from None
